@@ -119,6 +119,9 @@ func (s *Sim) GenTx() []byte {
 			to = ds[r.Intn(len(ds))]
 		}
 		amt := Rigo(uint64(r.Range(1, 8)))
+		if r.Chance(30) {
+			amt = Rigo(1) // dust stakes: forfeited rather than reduced by small slash ratios
+		}
 		if r.Chance(12) {
 			amt = new(uint256.Int).Add(amt, uint256.NewInt(uint64(r.Range(1, 3))))
 		}
@@ -185,7 +188,7 @@ func (s *Sim) GenTx() []byte {
 			optType = 512
 			opts = [][]byte{r.Bytes(r.Range(1, 8)), []byte("no")}
 		}
-		if r.Chance(4) {
+		if r.Chance(7) {
 			opts = nil
 		}
 		if r.Chance(4) {
@@ -204,7 +207,10 @@ func (s *Sim) GenTx() []byte {
 		if len(vals) > 0 && !r.Chance(10) {
 			vk = vals[r.Intn(len(vals))]
 		}
-		choice := int32(r.Intn(p.NOpts + 1))
+		choice := int32(0)
+		if r.Chance(30) { // most validators back option 0, so that proposals do reach 2/3 and get frozen / applied
+			choice = int32(r.Intn(p.NOpts + 1))
+		}
 		if r.Chance(8) {
 			choice = int32(r.Range(-1, p.NOpts+1))
 		}
@@ -371,6 +377,9 @@ func (s *Sim) genEvmTx(k *appdrv.Key) *appdrv.TxSpec {
 		}
 		spec := s.base(k, ctrlertypes.TRX_TRANSFER, to, val(), nil)
 		spec.Gas = 200000
+		if r.Chance(35) { // at / above the governance minimum but below the EVM's intrinsic gas
+			spec.Gas = s.minGas() + uint64(r.Intn(21000))
+		}
 		return spec
 	}
 	c := s.Contracts[r.Intn(len(s.Contracts))]
